@@ -62,7 +62,8 @@ func (*baseExecutor) GetScanSlice(columnNames []string, tableMeta *types.TableMe
 			columnMeta = tableMeta.Columns[columnName]
 		)
 		switch strings.ToUpper(columnMeta.DatabaseTypeString) {
-		case "VARCHAR", "NVARCHAR", "VARCHAR2", "CHAR", "TEXT", "JSON", "TINYTEXT":
+		case "VARCHAR", "NVARCHAR", "VARCHAR2", "CHAR", "TEXT", "JSON", "TINYTEXT", "DECIMAL":
+			// a DECIMAL is kept as the text the driver delivers: a float64 holds 15-17 digits of it
 			var scanVal sql.NullString
 			scanSlice = append(scanSlice, &scanVal)
 		case "BIT", "INT", "LONGBLOB", "SMALLINT", "TINYINT", "BIGINT", "MEDIUMINT":
@@ -76,7 +77,7 @@ func (*baseExecutor) GetScanSlice(columnNames []string, tableMeta *types.TableMe
 		case "DATE", "DATETIME", "TIME", "TIMESTAMP", "YEAR":
 			var scanVal sql.NullTime
 			scanSlice = append(scanSlice, &scanVal)
-		case "DECIMAL", "DOUBLE", "FLOAT":
+		case "DOUBLE", "FLOAT":
 			if columnMeta.IsNullable == 0 {
 				scanVal := float64(0)
 				scanSlice = append(scanSlice, &scanVal)
